@@ -95,7 +95,9 @@ fn main() {
             let count: usize = arg(&args, "--count", "50").parse().unwrap();
             let maxi: usize = arg(&args, "--max-instances", "5").parse().unwrap();
             let convert = arg(&args, "--convert", "0") == "1";
-            if arg(&args, "--convertible", "0") == "1" {
+            if arg(&args, "--huge", "0") == "1" {
+                cross::run_huge(seed, count, &mut out);
+            } else if arg(&args, "--convertible", "0") == "1" {
                 cross::run_cross_convertible(seed, count, &mut out);
             } else if arg(&args, "--descriptors", "0") == "1" {
                 cross::run_cross_descriptors(seed, 6, &mut out);
